@@ -23,6 +23,8 @@ Step ==
           ELSE /\ Clause(e, "c07_total", e.exc = "")
                /\ Clause(e, "c07_calls", e.exc = "" => AsSet(e.calls) = NormCalls(Calls(e.cfg, e.layout)))
                /\ Clause(e, "c07_count", e.exc = "" => e.ncalls = NCalls(e.cfg))
+               \* Call identity: calls that differ in stream, function, parameters, window or region are different calls
+               /\ Clause(e, "c07_distinct", e.exc = "" => e.ndistinct >= Cardinality(NormCalls(Calls(e.cfg, e.layout))))
                /\ Clause(e, "c07_roundtrip", e.exc = "" => (e.rt.exc = "" /\ AsSet(e.rt.calls) = AsSet(e.calls)))
                \* the very same source object loaded a second time (where it can be read twice) means the same
                /\ Clause(e, "c07_again", (e.exc = "" /\ e.again.done) =>
